@@ -11,7 +11,18 @@ T: random histories on long sequences / many objects run concurrently on the sha
 """
 import json
 import os
+import shutil
 import vlib
+
+
+def scan(path):
+    """Cases exported by TLC, one at a time (each line: a JSON string holding a JSON object)."""
+    with open(path) as f:
+        for line in f:
+            line = line.strip()
+            if line:
+                v = json.loads(line)
+                yield json.loads(v) if isinstance(v, str) else v
 
 
 def trace_violations(ctx, events, rejects):
@@ -30,6 +41,55 @@ def trace_violations(ctx, events, rejects):
                       {"n": ev["n"], "kind": ev["kind"], "steps": ev["steps"][:i]})
 
 
+def trace_phase(ctx, thorough):
+    trace = ctx.path("trace.ndjson")
+    ctx.harness(["record", "C07", "--out", trace, "--n", 4000 if thorough else 600], timeout=900)
+    events, rejects = ctx.trace_validate("SeqHeapTrace", "SeqHeapTrace.cfg", trace, timeout=1500)
+    trace_violations(ctx, events, rejects)
+    steps = sum(len(e["steps"]) for e in events)
+    ctx.extra["trace_histories"] = len(events)
+    ctx.extra["trace_steps"] = steps
+    ctx.extra["trace_longest_sequence"] = max((len(s["v"]["seq"]) for e in events for s in e["steps"]), default=0)
+    ctx.expect_vacuity("recorded steps", steps)
+    e0 = events[1] if len(events) > 1 else events[0]
+    ctx.samples.append({"trace_history_ops": [s["op"] for s in e0["steps"]][:12], "objects": e0["n"]})
+
+
+def replay_all(ctx, cases_path):
+    """Replay every case.  A fatal error of the code under test (e.g. stack overflow in an endless
+    recursion) kills the harness: the case it was running is reported as a violation and the replay
+    resumes after it."""
+    start, checked, crashes = 0, 0, 0
+    prog = ctx.path("progress.json")
+    while True:
+        res = ctx.path("res%d.ndjson" % crashes)
+        p = ctx.harness(["replay", "C07", "--cases", cases_path, "--out", res, "--opt", "from=%d" % start,
+                         "--opt", "progress=" + prog] + (["--opt", "skipdiverged=1"] if crashes else []),
+                        timeout=1500, check=False)
+        if p.returncode == 0:
+            checked += ctx.add_results(res)["checked"]
+            return checked, crashes
+        try:
+            k = int.from_bytes(open(prog, "rb").read(8), "little")
+            case = next(c for j, c in enumerate(scan(cases_path)) if j == k)
+        except Exception:
+            raise vlib.Inconclusive("harness failed rc=%d without progress record:\n%s" % (p.returncode, p.stderr[:2000]))
+        crashes += 1
+        head = " ".join(p.stderr[:400].split())
+        if k > start:       # results of the cases before the crash (deterministic: same run, stopped earlier)
+            res0 = ctx.path("res%d_before.ndjson" % crashes)
+            ctx.harness(["replay", "C07", "--cases", cases_path, "--out", res0, "--opt", "from=%d" % start,
+                         "--opt", "to=%d" % k] + (["--opt", "skipdiverged=1"] if crashes > 1 else []), timeout=1500)
+            checked += ctx.add_results(res0)["checked"]
+        what = case.get("k") or ("hist/" + case["h"][-1]["op"])
+        ctx.violation("C07.crash", "crash/" + what, "the code under test killed the process (rc=%d) while running this case: %s"
+                      % (p.returncode, head), case)
+        if crashes >= 3:     # enough evidence; the remaining cases are not replayed
+            vlib.log("replay stopped after %d crashes of the code under test" % crashes)
+            return checked, crashes
+        start = k + 1
+
+
 def main(ctx):
     thorough = ctx.tier == "thorough"
     tier = "thorough" if thorough else "quick"
@@ -44,9 +104,7 @@ def main(ctx):
             events, rejects = ctx.trace_validate("SeqHeapTrace", "SeqHeapTrace.cfg", trace)
             trace_violations(ctx, events, rejects)
         else:
-            res = ctx.path("res.ndjson")
-            ctx.harness(["replay", "C07", "--cases", cases, "--out", res])
-            ctx.add_results(res)
+            replay_all(ctx, cases)
         return ctx.finish()
 
     # M ---------------------------------------------------------------------------------------
@@ -54,52 +112,55 @@ def main(ctx):
     hist = ctx.path("hist.ndjson")
     r1 = ctx.tlc_model("SeqLaws", "SeqLaws_%s.cfg" % tier, env={"VERIF_CASES": laws}, timeout=1500)
     r2 = ctx.tlc_model("SeqHeap", "SeqHeap_%s.cfg" % tier, env={"VERIF_CASES": hist}, timeout=1500)
+    # second population of histories: fewer kinds of operations, deeper (pool reuse needs depth)
+    hist2 = ctx.path("hist2.ndjson")
+    r3 = ctx.tlc_model("SeqHeap", "SeqHeap_deep%s.cfg" % ("_thorough" if thorough else ""), env={"VERIF_CASES": hist2}, timeout=1500)
+    kinds, nwin, nhist, longest = {}, 0, [0, 0], 0
     try:
-        lawcases = vlib.read_cases(laws)
-        histcases = vlib.read_cases(hist)
+        for c in scan(laws):
+            kinds[c["k"]] = kinds.get(c["k"], 0) + 1
+            if c["k"] == "subs":
+                nwin += len(c["ws"])
+        for j, p in enumerate((hist, hist2)):
+            for c in scan(p):
+                nhist[j] += 1
+                longest = max(longest, len(c["h"]))
     except ValueError as ex:
         raise vlib.Inconclusive("torn line in exported cases: %s" % ex)
-    if len(histcases) != r2.distinct:
-        raise vlib.Inconclusive("SeqHeap exported %d histories for %d states" % (len(histcases), r2.distinct))
-    kinds = {}
-    for c in lawcases:
-        kinds[c["k"]] = kinds.get(c["k"], 0) + 1
-    for kk in ("rc", "sub", "comp", "apat", "kmer"):
+    if nhist[0] != r2.distinct or nhist[1] != r3.distinct:
+        raise vlib.Inconclusive("SeqHeap exported %s histories for %d+%d states" % (nhist, r2.distinct, r3.distinct))
+    kinds["windows"] = nwin
+    for kk in ("rc", "subs", "comp", "apat", "kmer"):
         ctx.expect_vacuity("law cases of kind " + kk, kinds.get(kk, 0))
     if kinds["comp"] != 19:
         raise vlib.Inconclusive("complement table cases: %d symbols instead of 19" % kinds["comp"])
     ctx.extra["exported_law_cases"] = kinds
-    ctx.extra["exported_histories"] = len(histcases)
-    ctx.extra["longest_history"] = max(len(c["h"]) for c in histcases)
+    ctx.extra["exported_histories"] = sum(nhist)
+    ctx.extra["longest_history"] = longest
     # R ---------------------------------------------------------------------------------------
     allc = ctx.path("cases.ndjson")
-    with open(allc, "w") as f:
-        for p in (laws, hist):
-            for line in open(p):
-                f.write(line)
-    res = ctx.path("res.ndjson")
-    ctx.harness(["replay", "C07", "--cases", allc, "--out", res], timeout=1500)
-    summ = ctx.add_results(res)
-    want = len(lawcases) + len(histcases) + ctx.classes.get("table/obikmer", 0)
-    if summ["checked"] != want:
-        raise vlib.Inconclusive("replayed %d of %d cases" % (summ["checked"], want))
-    for need in ("hist/rc/inplace", "hist/rc", "hist/copy", "hist/sub", "hist/sub/circular", "hist/recycle", "hist/join",
-                 "hist/setqual/after-recycle", "hist/copy/after-recycle", "hist/new/after-recycle",
-                 "law/rc/annotated", "law/rc/plain", "law/sub/linear", "law/sub/circular", "law/sub/circular-wrap",
-                 "law/sub/circular-over", "table/obiseq", "table/obikmer", "table/apat", "table/apat-pattern", "kmer"):
-        ctx.expect_vacuity("class " + need, ctx.classes.get(need, 0))
+    with open(allc, "wb") as f:
+        for p in (laws, hist, hist2):
+            with open(p, "rb") as g:
+                shutil.copyfileobj(g, f, 1 << 22)
+            os.remove(p)
+    checked, crashes = replay_all(ctx, allc)
+    want = sum(v for k, v in kinds.items() if k not in ("subs", "windows")) + nwin + sum(nhist) + ctx.classes.get("table/obikmer", 0)
+    if crashes == 0 and checked != want:
+        raise vlib.Inconclusive("replayed %d of %d cases" % (checked, want))
+    if crashes == 0:
+        for need in ("hist/rc/inplace", "hist/rc", "hist/copy", "hist/sub", "hist/sub/circular", "hist/recycle", "hist/join",
+                     "hist/setqual/after-recycle", "hist/copy/after-recycle", "hist/new/after-recycle",
+                     "law/rc/annotated", "law/rc/plain", "law/sub/linear", "law/sub/circular", "law/sub/circular-wrap",
+                     "law/sub/circular-over", "table/obiseq", "table/obikmer", "table/apat", "table/apat-pattern", "kmer"):
+            ctx.expect_vacuity("class " + need, ctx.classes.get(need, 0))
     # T ---------------------------------------------------------------------------------------
-    trace = ctx.path("trace.ndjson")
-    ctx.harness(["record", "C07", "--out", trace, "--n", 6000 if thorough else 1200], timeout=900)
-    events, rejects = ctx.trace_validate("SeqHeapTrace", "SeqHeapTrace.cfg", trace, timeout=1500)
-    trace_violations(ctx, events, rejects)
-    steps = sum(len(e["steps"]) for e in events)
-    ctx.extra["trace_histories"] = len(events)
-    ctx.extra["trace_steps"] = steps
-    ctx.extra["trace_longest_sequence"] = max((len(s["v"]["seq"]) for e in events for s in e["steps"]), default=0)
-    ctx.expect_vacuity("recorded steps", steps)
-    e0 = events[1] if len(events) > 1 else events[0]
-    ctx.samples.append({"trace_history_ops": [s["op"] for s in e0["steps"]][:12], "objects": e0["n"]})
+    try:
+        trace_phase(ctx, thorough)
+    except vlib.Inconclusive as ex:
+        if not ctx.violations:
+            raise
+        vlib.log("trace phase not completed (%s); violations already found are reported" % str(ex)[:300])
     ctx.assumptions += [
         "a mismatch annotation is compared as (position, unordered pair of (symbol, score)); symbol case is ignored",
         "circular windows: at most one turn; to <= from < n denotes the window through the origin (from = to: a full turn)",
